@@ -599,6 +599,13 @@ func (fr *Frame) evalCall(e *Expr, env *Env, st *State, old *State) *Val {
 			}
 		}
 		evalFail("locked: no monitor declared for %v", pt.Elem())
+	case "strictdec":
+		// strictdec(x): the CBOR decoder (or decoding mode) x rejects messages with unknown fields
+		x := arg(0)
+		if _, isPtr := x.Ty.Underlying().(*types.Pointer); isPtr {
+			return term(app(u.fn("cbor_strictdec", []string{"Ref"}, "Bool"), x.T), B)
+		}
+		return term(app(u.fn("cbor_strictmode", []string{"Iface"}, "Bool"), fr.asTerm(x, st)), B)
 	case "closed":
 		// closed(ch): the channel has been closed
 		x := arg(0)
